@@ -29,13 +29,32 @@ func RenameArgumentsAction(newNames []string) RewriteAction {
 			return []ast.Option{option}
 		}
 
+		// work on a copy: the arguments and assignments of the option handed in
+		// are shared with whoever else holds it (the builders given to the
+		// rewriter, constructors that promoted this option, merged builders).
+		option = option.DeepCopy()
+
 		for i, arg := range option.Args {
 			previousName := arg.Name
 			option.Args[i].Name = newNames[i]
 
+			// every use of the argument follows: assigned values, constraints
+			// and path indices
 			for j, assignment := range option.Assignments {
 				if assignment.Value.Argument != nil && assignment.Value.Argument.Name == previousName {
 					option.Assignments[j].Value.Argument.Name = newNames[i]
+				}
+
+				for k, constraint := range assignment.Constraints {
+					if constraint.Argument.Name == previousName {
+						option.Assignments[j].Constraints[k].Argument.Name = newNames[i]
+					}
+				}
+
+				for k, pathItem := range assignment.Path {
+					if pathItem.Index != nil && pathItem.Index.Argument != nil && pathItem.Index.Argument.Name == previousName {
+						option.Assignments[j].Path[k].Index.Argument.Name = newNames[i]
+					}
 				}
 			}
 		}
